@@ -61,43 +61,72 @@ example :
 
 /-! ## Per-command authorisation -/
 
-/-- **Write.** For every command kind, state and identity: if the command is dispatched to
-its handler's work (`proceed`) under an identity other than the reserved id `bypass`, the
-identity is an account holding the write right for every event type the command stores into.
-PARTIAL: the hypothesis `uid ≠ some "bypass"` is needed — see
-`C13_write_needs_permission_fails`. -/
+/-- **No account is ever called `bypass`.** In every state reachable from an empty user table
+through any sequence of executed commands, token mintings and direct `AuthManager` calls, the
+reserved id `bypass` names no account (`validate_user_id` refuses it since fix 8e1fb08). An
+account persisted in an auth WAL by a pre-fix server and loaded at start-up is *outside* this
+reachable set; for such states only the `_partial` theorems below apply. -/
+theorem C13_no_bypass_account_reachable (alnum : Char → Bool) (cfg : Cfg) (later : List Later) :
+    NoBypassAccount (applyLater alnum cfg State.empty later) :=
+  noBypass_applyLater alnum cfg later State.empty noBypass_empty
+
+/-- **Write — full, on reachable states.** In every state reachable through the API from an
+empty user table, for every command kind and every identity that names an account of that state
+(which is what the gate hands on when authentication is on, `C13_gate_sound`): if the command
+proceeds, the account holds the write right for every event type the command stores into. -/
+theorem C13_write_needs_permission (alnum : Char → Bool) (cfg : Cfg) (later : List Later)
+    (uid : Option Str) (c : Cmd)
+    (hacc : ∀ u, uid = some u → (findUser (applyLater alnum cfg State.empty later) u).isSome = true)
+    (h : authorize (applyLater alnum cfg State.empty later) true uid c = .proceed) :
+    ∀ et ∈ writesOf c, ∃ u, uid = some u ∧ specWrite (applyLater alnum cfg State.empty later) u et = true :=
+  write_needs_permission _ uid c h
+    (account_not_bypass (C13_no_bypass_account_reachable alnum cfg later) hacc)
+
+/-- Write, for an **arbitrary** state (also one that contains a `bypass` account loaded from a
+pre-fix auth WAL). PARTIAL: needs `uid ≠ some "bypass"`, see `C13_write_needs_permission_fails`. -/
 theorem C13_write_needs_permission_partial (st : State) (uid : Option Str) (c : Cmd)
     (h : authorize st true uid c = .proceed) (hby : uid ≠ some bypassUserId) :
     ∀ et ∈ writesOf c, ∃ u, uid = some u ∧ specWrite st u et = true :=
   write_needs_permission st uid c h hby
 
-/-- The full statement is false of the code: an admin may create an account whose id is the
-reserved string `bypass` (it passes `validate_user_id`); that account, with no role and no
-permission, stores into any event type. -/
+/-- Over arbitrary states the statement is false: a state holding an account whose id is the
+reserved string `bypass` (not creatable any more — `C13_no_bypass_account_reachable` — but
+loadable from an auth WAL written before fix 8e1fb08) lets that account, with no role and no
+permission, store into any event type; the API refuses to create it now. -/
 theorem C13_write_needs_permission_fails :
     ∃ (st : State) (et : Str),
-      createUser Char.isAlphanum State.empty bypassUserId ['k'] [] = (.ok, st) ∧
+      (∃ u, findUser st bypassUserId = some u ∧ u.active = true) ∧
       authorize st true (some bypassUserId) (.store et true) = .proceed ∧
-      specWrite st bypassUserId et = false :=
-  ⟨_, ['e'], rfl, by decide, by decide⟩
+      specWrite st bypassUserId et = false ∧
+      (createUser Char.isAlphanum State.empty bypassUserId ['k'] []).1 = .invalidId :=
+  ⟨⟨[⟨bypassUserId, ['k'], true, [], []⟩], [], [], []⟩, ['e'], ⟨_, rfl, rfl⟩, by decide, by decide, by decide⟩
 
-/-- **Read.** For the command kinds whose handler is given the identity, without a sequence
-tail, under an identity other than `bypass`: `proceed` implies the read right on every event
-type the command returns.
-PARTIAL: three hypotheses are needed — the handler must receive the identity
-(`passesIdentity`), the query must not be a sequence query (only the head type is checked),
-and the identity must not be the reserved id. `C13_read_needs_permission_fails` has a witness
-for each. -/
+/-- **Read.** For the command kinds whose handler is given the identity (QUERY in every
+spelling, including sequence queries: head type and every FOLLOWED BY / PRECEDED BY target
+since fix 6e1140a), under an identity other than `bypass`: `proceed` implies the read right on
+every event type the command returns.
+PARTIAL: the handler must receive the identity (`passesIdentity`); on arbitrary states the
+identity must not be the reserved id. `C13_read_needs_permission_fails` has the witnesses. -/
 theorem C13_read_needs_permission_partial (all : List Str) (st : State) (uid : Option Str) (c : Cmd)
     (h : authorize st true uid c = .proceed) (hid : passesIdentity c = true)
-    (hseq : seqTail c = []) (hby : uid ≠ some bypassUserId) :
+    (hby : uid ≠ some bypassUserId) :
     ∀ et ∈ readsOf all c, ∃ u, uid = some u ∧ specRead st u et = true :=
-  read_needs_permission all st uid c h hid hseq hby
+  read_needs_permission all st uid c h hid hby
+
+/-- Read on reachable states: only the hypothesis `passesIdentity` remains. -/
+theorem C13_read_needs_permission_reachable_partial (alnum : Char → Bool) (cfg : Cfg) (later : List Later)
+    (all : List Str) (uid : Option Str) (c : Cmd)
+    (hacc : ∀ u, uid = some u → (findUser (applyLater alnum cfg State.empty later) u).isSome = true)
+    (h : authorize (applyLater alnum cfg State.empty later) true uid c = .proceed)
+    (hid : passesIdentity c = true) :
+    ∀ et ∈ readsOf all c, ∃ u, uid = some u ∧ specRead (applyLater alnum cfg State.empty later) u et = true :=
+  read_needs_permission all _ uid c h hid
+    (account_not_bypass (C13_no_bypass_account_reachable alnum cfg later) hacc)
 
 /-- The full statement is false of the code. For an account `u` with no role and no
 permission at all (created by an admin through `create_user`), each of REPLAY, a comparison
-query, REMEMBER and a sequence query whose head type `u` may read proceeds and returns event
-types `u` has no read right for; and an account named `bypass` reads everything. -/
+query and REMEMBER proceeds and returns event types `u` has no read right for — their handlers
+never see the identity. (A sequence query is now refused: last conjunct.) -/
 theorem C13_read_needs_permission_fails :
     ∃ (st : State) (u e f : Str),
       createUser Char.isAlphanum State.empty u ['k'] [] = (.ok, st) ∧
@@ -106,35 +135,41 @@ theorem C13_read_needs_permission_fails :
       authorize st true (some u) (.replay none) = .proceed ∧
       authorize st true (some u) (.compare [e, e]) = .proceed ∧
       authorize st true (some u) (.remember ['m'] e []) = .proceed ∧
-      -- sequence query: read right on the head `f` only
-      (∃ st', setPermission st u f ⟨true, false⟩ = (.ok, st') ∧ specRead st' u e = false ∧
-        authorize st' true (some u) (.query f [e]) = .proceed) ∧
-      -- the reserved id
-      (∃ sb, createUser Char.isAlphanum State.empty bypassUserId ['k'] [] = (.ok, sb) ∧
-        specRead sb bypassUserId e = false ∧
-        authorize sb true (some bypassUserId) (.query e []) = .proceed) :=
+      -- control: read right on the head `f` only no longer opens a sequence query
+      (∃ st', setPermission st u f ⟨true, false⟩ = (.ok, st') ∧
+        authorize st' true (some u) (.query f []) = .proceed ∧
+        authorize st' true (some u) (.query f [e]) = .forbidden) :=
   ⟨_, ['u'], ['e'], ['f'], rfl, by decide, by decide, by decide, by decide, by decide,
-    ⟨_, rfl, by decide, by decide⟩, ⟨_, rfl, by decide, by decide⟩⟩
+    ⟨_, rfl, by decide, by decide⟩⟩
 
-/-- **Admin.** Schema definition and user / permission management proceed only for an
-account with the admin role, for every such command, state and identity other than `bypass`.
-PARTIAL: hypothesis `uid ≠ some "bypass"`, see `C13_admin_only_fails`. -/
+/-- **Admin — full, on reachable states.** Schema definition and user / permission management
+proceed only for an account with the admin role. -/
+theorem C13_admin_only (alnum : Char → Bool) (cfg : Cfg) (later : List Later)
+    (uid : Option Str) (c : Cmd)
+    (hacc : ∀ u, uid = some u → (findUser (applyLater alnum cfg State.empty later) u).isSome = true)
+    (h : authorize (applyLater alnum cfg State.empty later) true uid c = .proceed)
+    (hadm : needsAdmin c = true) :
+    ∃ u, uid = some u ∧ specAdmin (applyLater alnum cfg State.empty later) u = true :=
+  admin_only _ uid c h hadm
+    (account_not_bypass (C13_no_bypass_account_reachable alnum cfg later) hacc)
+
+/-- Admin, arbitrary state. PARTIAL: hypothesis `uid ≠ some "bypass"`, see `C13_admin_only_fails`. -/
 theorem C13_admin_only_partial (st : State) (uid : Option Str) (c : Cmd)
     (h : authorize st true uid c = .proceed) (hadm : needsAdmin c = true)
     (hby : uid ≠ some bypassUserId) :
     ∃ u, uid = some u ∧ specAdmin st u = true :=
   admin_only st uid c h hadm hby
 
-/-- The full statement is false: the role-less account `bypass` defines schemas, creates
-users and grants permissions. -/
+/-- Over arbitrary states false: a (pre-fix, persisted) role-less account `bypass` defines
+schemas, creates users and grants permissions. -/
 theorem C13_admin_only_fails :
     ∃ (st : State),
-      createUser Char.isAlphanum State.empty bypassUserId ['k'] [] = (.ok, st) ∧
+      (∃ u, findUser st bypassUserId = some u ∧ u.active = true) ∧
       specAdmin st bypassUserId = false ∧
       authorize st true (some bypassUserId) (.define ['e']) = .proceed ∧
       authorize st true (some bypassUserId) (.createUser ['x'] ['k'] ["admin".toList]) = .proceed ∧
       authorize st true (some bypassUserId) (.grant ["read".toList] [['e']] ['x']) = .proceed :=
-  ⟨_, rfl, by decide, by decide, by decide, by decide⟩
+  ⟨⟨[⟨bypassUserId, ['k'], true, [], []⟩], [], [], []⟩, ⟨_, rfl, rfl⟩, by decide, by decide, by decide, by decide⟩
 
 /-- **Every kind looks at the identity.** An authenticated account without any role and
 without any permission entry can make no command proceed, except PING — for the command kinds
@@ -190,15 +225,16 @@ example :
 /-- **Gate and dispatcher together.** With authentication configured on: if a request line
 passes the gate as `(cmd, user)`, `cmd` parses to `c` and the dispatcher answers 200, then
 `user` is an active account, and — for the kinds whose handler receives the identity, without
-sequence tail, `user ≠ "bypass"` — it holds the read right for every type read, the write
-right for every type written, and the admin role where the command needs it.
-PARTIAL: same three hypotheses as above. -/
+`user ≠ "bypass"` (automatic on reachable states, `C13_no_bypass_account_reachable`) — it holds
+the read right for every type read (sequence targets included), the write right for every type
+written, and the admin role where the command needs it.
+PARTIAL: hypotheses `passesIdentity c` and, for arbitrary states, `user ≠ "bypass"`. -/
 theorem C13_end_to_end_partial (mac : Str → Str → Str) (alnum : Char → Bool) (cfg : Cfg) (st st' : State)
     (conn : Option Str) (now : Nat) (line cmd user : Str) (c : Cmd) (all : List Str)
     (hcfg : cfg.bypass = false ∧ cfg.hasManager = true)
     (hg : gate mac cfg st conn now line = .pass cmd user)
     (hd : dispatch alnum st cfg.hasManager (some user) c = (.s200, st'))
-    (hid : passesIdentity c = true) (hseq : seqTail c = []) (hby : user ≠ bypassUserId) :
+    (hid : passesIdentity c = true) (hby : user ≠ bypassUserId) :
     (∃ u, findUser st user = some u ∧ u.active = true) ∧
     (∀ et ∈ readsOf all c, specRead st user et = true) ∧
     (∀ et ∈ writesOf c, specWrite st user et = true) ∧
@@ -213,7 +249,7 @@ theorem C13_end_to_end_partial (mac : Str → Str → Str) (alnum : Char → Boo
     · obtain ⟨u, _, h1, h2, _⟩ := h; exact ⟨u, h1, h2⟩
     · obtain ⟨_, u, _, _, _, _, _, h1, h2, _⟩ := h; exact ⟨u, h1, h2⟩
   · intro et het
-    obtain ⟨u, hu, hr⟩ := C13_read_needs_permission_partial all st (some user) c hp hid hseq hne et het
+    obtain ⟨u, hu, hr⟩ := C13_read_needs_permission_partial all st (some user) c hp hid hne et het
     cases hu; exact hr
   · intro et het
     obtain ⟨u, hu, hr⟩ := C13_write_needs_permission_partial st (some user) c hp hne et het
